@@ -269,6 +269,14 @@ func runAPI(op string, args []string) string {
 				return "none"
 			}
 			return fmt.Sprintf("some %d", math.Float64bits(f))
+		case "fpShift", "fpRounded":
+			// args: digits (ASCII, hex), dp, neg, trunc [, k]
+			st := rjson.VerifFPDecimalState{Digits: data, Dp: int(atoi(args[1])), Neg: args[2] == "true", Trunc: args[3] == "true"}
+			if op == "fpRounded" {
+				return fmt.Sprint(rjson.VerifFPDecimalRounded(st))
+			}
+			r := rjson.VerifFPDecimalShift(st, int(atoi(args[4])))
+			return fmt.Sprintf("%s %d %v %v", hx(r.Digits), r.Dp, r.Neg, r.Trunc)
 		case "fpDecimal":
 			b, ovf, ok := rjson.VerifFPDecimal(data)
 			if !ok {
